@@ -11081,3 +11081,122 @@ func rulePayerBalanceByAccounts(c *Ctx) {
 	})
 	c.Floor("deposit lookups in GetUtilityTokenBalance", n, 1)
 }
+
+// ruleQueueConsumed (C20): every block queue the server puts blocks into has a consumer in every configuration in
+// which the put can happen. The blocks of the third stage of a state synchronisation go into Server.bSyncQueue
+// (handleBlockCmd); its Run loop was started only by the stage-change callback, and the callback is registered only
+// for the NeoFS-based synchronisation - with P2P state exchange alone the blocks were queued and never delivered, the
+// synchronisation never finished (finding 105). For every field of Server of type *bqueue.Queue that some function
+// of the package Puts into: a `go <field>.Run()` statement stands in Server.Start, or the queue is put into only by
+// functions that also start it.
+func ruleQueueConsumed(c *Ctx) {
+	pk := c.P.Pkg("pkg/network")
+	if pk == nil {
+		return
+	}
+	info := pk.TypesInfo
+	puts := map[string]map[string]bool{}
+	runs := map[string]map[string]bool{}
+	fieldOf := func(e ast.Expr) (string, bool) {
+		se, ok := ast.Unparen(e).(*ast.SelectorExpr)
+		if !ok {
+			return "", false
+		}
+		v, ok := info.ObjectOf(se.Sel).(*types.Var)
+		if !ok || !v.IsField() {
+			return "", false
+		}
+		t := v.Type()
+		if p, ok := t.(*types.Pointer); ok {
+			t = p.Elem()
+		}
+		nt, ok := t.(*types.Named)
+		if !ok || nt.Obj().Name() != "Queue" || nt.Obj().Pkg() == nil || pkgRel(nt.Obj().Pkg()) != "pkg/network/bqueue" {
+			return "", false
+		}
+		return v.Name(), true
+	}
+	for _, fd := range c.P.AllFuncDecls() {
+		if fd.Pkg != pk || fd.Decl.Body == nil {
+			continue
+		}
+		ast.Inspect(fd.Decl.Body, func(x ast.Node) bool {
+			switch y := x.(type) {
+			case *ast.FuncLit:
+				// a put inside a function literal belongs to the component the literal is handed to (the NeoFS
+				// fetchers get their `put` callbacks this way and are started together with their queues): only
+				// puts made by the server's own methods are judged
+				ast.Inspect(y.Body, func(z ast.Node) bool {
+					if gs, ok := z.(*ast.GoStmt); ok {
+						if se, ok := ast.Unparen(gs.Call.Fun).(*ast.SelectorExpr); ok && se.Sel.Name == "Run" {
+							if q, ok := fieldOf(se.X); ok {
+								if runs[q] == nil {
+									runs[q] = map[string]bool{}
+								}
+								runs[q][fd.Decl.Name.Name] = true
+							}
+						}
+					}
+					return true
+				})
+				return false
+			case *ast.GoStmt:
+				if se, ok := ast.Unparen(y.Call.Fun).(*ast.SelectorExpr); ok && se.Sel.Name == "Run" {
+					if q, ok := fieldOf(se.X); ok {
+						if runs[q] == nil {
+							runs[q] = map[string]bool{}
+						}
+						runs[q][fd.Decl.Name.Name] = true
+					}
+				}
+			case *ast.CallExpr:
+				if se, ok := ast.Unparen(y.Fun).(*ast.SelectorExpr); ok && se.Sel.Name == "Put" {
+					if q, ok := fieldOf(se.X); ok {
+						if puts[q] == nil {
+							puts[q] = map[string]bool{}
+						}
+						puts[q][fd.Decl.Name.Name] = true
+					}
+				}
+			}
+			return true
+		})
+	}
+	var qs []string
+	for q := range puts {
+		qs = append(qs, q)
+	}
+	sort.Strings(qs)
+	for _, q := range qs {
+		key := "queue-consumed." + q
+		switch {
+		case runs[q]["Start"]:
+			c.OK(key, pkgRel(pk.Types), "Server.Start runs the queue")
+		case len(runs[q]) == 0:
+			c.Fail(key, pkgRel(pk.Types), fmt.Sprintf("Server.%s is put into and never run: whatever is queued there is never delivered", q))
+		default:
+			// started elsewhere only: every putter must be one of the starters
+			ok := true
+			for p := range puts[q] {
+				if !runs[q][p] {
+					ok = false
+				}
+			}
+			var rs, ps []string
+			for r := range runs[q] {
+				rs = append(rs, r)
+			}
+			for p := range puts[q] {
+				ps = append(ps, p)
+			}
+			sort.Strings(rs)
+			sort.Strings(ps)
+			if ok {
+				c.OK(key, pkgRel(pk.Types), "the queue is started by the functions that put into it")
+			} else {
+				c.Fail(key, pkgRel(pk.Types), fmt.Sprintf("Server.%s is put into by %s and its Run loop is started only by %s, not by Server.Start: in a configuration in which that starter is never called (the state-sync stage callback is registered for the NeoFS-based synchronisation only) the blocks are queued and never delivered - a state synchronisation over P2P receives its blocks and never applies them", q, strings.Join(ps, ", "), strings.Join(rs, ", ")))
+			}
+		}
+	}
+	c.Floor("block queues the server's own methods put into", len(qs), 2)
+}
